@@ -273,10 +273,20 @@ def trace_stats(ctx, impl):
             ctx.count("events.trace.spin")
 
 
+def sanitizer_summary(ctx, sub, status):
+    """one failure for all shards (the per-case lines above carry the replayable inputs)"""
+    import re
+    for rc, err in status:
+        m = re.search(r"(ERROR: AddressSanitizer[^\n]*|[^\n]*runtime error:[^\n]*|ERROR: LeakSanitizer[^\n]*)", err)
+        if rc != 0 or m:
+            ctx.fail(sub, "sanitizer" if m else "crash", "",
+                     (m.group(1) if m else "driver exit rc=%d: %s" % (rc, err[-300:])), property_fails=True)
+            return
+
+
 def judge(ctx, sub, d, which):
     """which = 'c04' | 'c05': the property predicate on the implementation's trace + the diff."""
     cases, impl, model, verdict = d["cases"], d["impl"], d["model"], d[which]
-    vlib.sanitizer_reports(ctx, sub, [(rc, err) for rc, err in d["status"]])
     nprop = ndiff = 0
     for i, c in enumerate(cases):
         a, m, v = impl[i], model[i], verdict[i]
@@ -304,6 +314,7 @@ def judge(ctx, sub, d, which):
                     property_fails=False)
     ctx.count(sub + ".property-failures", nprop)
     ctx.count(sub + ".disagreements", ndiff)
+    sanitizer_summary(ctx, sub, [(rc, err) for rc, err in d["status"]])
     trace_stats(ctx, impl)
     ctx.record(sub, cases, set(impl),
                "programs of 1-12 callbacks (scripts of register/cancel/reset/interrupt calls per invocation, "
@@ -371,7 +382,6 @@ def check_events_allocfail(ctx):
         return s + (" k 1" if st[4] else "")
     ccases = [line(st, o, k) for st, (o, k) in zip(structs, inj)]
     impl, stt = vlib.run_sharded(exe, ccases, env=ASAN_ENV, timeout=1500)
-    vlib.sanitizer_reports(ctx, sub, stt)
     mcases = []
     for st, (o, k), a in zip(structs, inj, impl):
         t = a.split()
@@ -417,6 +427,7 @@ def check_events_allocfail(ctx):
                     k, " ".join(at[max(0, k - 12):k + 8]), " ".join(mt[max(0, k - 12):k + 8])), property_fails=False)
     ctx.count(sub + ".property-failures", nprop)
     ctx.count(sub + ".disagreements", ndiff)
+    sanitizer_summary(ctx, sub, stt)
     ctx.record(sub, ccases, set(impl),
                "event-loop programs (as for C04) with the k-th / every-from-k-th library allocation of one "
                "register call refused and the call retried at once; 30% of the cases also refuse every "
